@@ -25,6 +25,7 @@ func runC15(w *World, r *Report) {
 
 	r.Rule("C15-R5", "name keys are injective", "each util.Get*InfoKeys joins its name components so that distinct (database, collection, partition) tuples give distinct keys: between two adjacent name components the format has a character that cannot occur in a Milvus name (names are letters, digits, '_' and '$')", 3)
 	ruleC15KeyInjective(w, r)
+	ruleKeyComponentsVerbatim(w, r, "C15-R11")
 
 	fn := w.Func(pkgReader, "EtcdOp", "GetAllDroppedObj")
 	if fn == nil {
@@ -501,5 +502,49 @@ func ruleC15KeyInjective(w *World, r *Report) {
 			continue
 		}
 		r.Check(bad == "", "C15-R5", cons, f.Pos(), "adjacent name components are separated by a character outside the name alphabet", "the key is ambiguous ("+bad+"): two different objects whose names join to the same string (database a + collection b_c, database a_b + collection c) share one entry of the dropped-object tables, so operations on the live one are skipped with the other's drop time")
+	}
+}
+
+// ruleKeyComponentsVerbatim (C15-R11, shared with C08): every name given to a key constructor is part of the key as it
+// is. A component that went through a trimming / cutting / case-folding / replacing function no longer identifies the
+// object (strings.TrimRight(key, "_c") strips a character SET: "doc" and "do" give the same key).
+func ruleKeyComponentsVerbatim(w *World, r *Report, rule string) {
+	r.Rule(rule, "key components are used verbatim", "in util.GetDBInfoKeys / GetCollectionInfoKeys / GetPartitionInfoKeys (and what they call) no string that reaches the returned keys is the result of strings.Trim*/Cut*/Replace*/ToLower/ToUpper/Fields/Split/Title or a slice expression of a name: the key contains each name unmodified", 3)
+	lossy := map[string]bool{"Trim": true, "TrimRight": true, "TrimLeft": true, "TrimSpace": true, "TrimFunc": true, "TrimPrefix": true, "TrimSuffix": true, "Cut": true, "CutPrefix": true, "CutSuffix": true,
+		"Replace": true, "ReplaceAll": true, "ToLower": true, "ToUpper": true, "Title": true, "Fields": true, "Split": true, "SplitN": true, "Map": true}
+	for _, name := range []string{"GetDBInfoKeys", "GetCollectionInfoKeys", "GetPartitionInfoKeys"} {
+		f := w.Func(pkgUtil, "", name)
+		cons := "util." + name + " | components verbatim"
+		if f == nil {
+			r.Undecided(rule, cons, 0, "anchor not found")
+			continue
+		}
+		bad := ""
+		seenFns := map[*ssa.Function]bool{}
+		var visit func(fn *ssa.Function, d int)
+		visit = func(fn *ssa.Function, d int) {
+			if seenFns[fn] || d > 3 {
+				return
+			}
+			seenFns[fn] = true
+			eachInstr(fn, func(in ssa.Instruction) {
+				switch x := in.(type) {
+				case *ssa.Call:
+					s := callSym(x.Common())
+					if s.pkg == "strings" && lossy[s.name] {
+						bad = "strings." + s.name + " at " + w.Prog.Fset.Position(x.Pos()).String()
+					}
+					if cal := x.Common().StaticCallee(); cal != nil && cal.Pkg != nil && cal.Pkg.Pkg.Path() == pkgUtil && len(cal.Blocks) > 0 {
+						visit(cal, d+1)
+					}
+				case *ssa.Slice:
+					if isStringType(x.X.Type()) {
+						bad = "a slice expression of a string at " + w.Prog.Fset.Position(x.Pos()).String()
+					}
+				}
+			})
+		}
+		visit(f, 0)
+		r.Check(bad == "", rule, cons, f.Pos(), "names reach the key unmodified", "a component of the key goes through "+bad+": different names can give the same key (a cut-set trim removes every trailing character of the set, not a suffix), so the drop time recorded for one object is found for another")
 	}
 }
